@@ -22,6 +22,9 @@ def end_lines(kind, pfx):
         "op-assign": ["%s += 1" % y],
         "print-call": ["puts %s" % y],
         "method-chain": ["%s.upcase.downcase" % s],
+        "failing-op-call": ["%s = 2 * \"x\"" % p],            # an operator call that ends with a diagnostic
+        "not-call": ["!%s" % y],
+        "while-modifier": ["%s += 1 while %s.nil?" % (y, y)],
         "none": [],
     }[kind]
 
@@ -40,6 +43,8 @@ def next_lines(kind):
         "const-line": ["Array.new(2).each { |hq_c4| dbtp hq_c4 }"],
         "if-line": ["if hq_y.nil?", "  dbtp hq_y", "else", "  dbtp hq_y", "end"],
         "def-line": ["def hq_m(hq_a)", "  dbtp hq_a", "  hq_a", "end", "dbtp hq_m(1)"],
+        "ternary-op-line": ["hq_t = hq_y.nil? ? 1 : \"a\" + \"b\"", "dbtp hq_t"],
+        "arith-line": ["hq_r = 1 + 2 * 3.5", "dbtp hq_r"],
     }[kind]
 
 
